@@ -43,6 +43,9 @@ def run(ck, prog, ctx):
     ck.rule("DISPATCH", "in the region dominated by the arm of variant V no callee/field named after another variant V' (DESIGN 3.11)")
     ck.rule("SELECT", "direction of a two-way selection from (comparison op, operand returned on the true edge) (DESIGN 3.10)")
     ck.rule("KIND", "single-kind bodies contain no element of another annotation kind (DESIGN 3.3 K1)")
+    ck.rule("CTORS", "a similarity type with an argument-less new() and a Default impl builds the same value both ways, field by field (constants followed through one delegating constructor)")
+    from engines import check_ctor_agreement
+    check_ctor_agreement(ck, "CTORS", prog, r"^src/similarity")
     ai = absint.Interp(prog, axioms)
     pv = Prov(prog)
     pv_sel = Prov(prog, bind_closures=False, inline=False)
